@@ -58,6 +58,7 @@ type V3Scenario struct {
 	Name     string   `json:"name"`
 	Seed     int64    `json:"seed"`
 	NoPlugin bool     `json:"noplugin,omitempty"`
+	Live     bool     `json:"live,omitempty"` // reconciles are served from the REAL watchers' wake-ups only
 	Steps    []V3Step `json:"steps"`
 }
 
@@ -86,6 +87,15 @@ type V3World struct {
 
 	lines   []map[string]interface{}
 	emitErr error
+
+	// live mode: the ids the real watchers of the three controllers have emitted and that were not served yet
+	live     bool
+	wmu      sync.Mutex
+	pendTx   map[int]bool
+	pendCfg  bool
+	pendMast bool
+	wakeups  int64
+	stops    []func()
 }
 
 type flight struct {
@@ -143,11 +153,202 @@ func NewV3World(sc V3Scenario) (*V3World, error) {
 	if err := w.rawCfg.Create(ctx, cfg); err != nil {
 		return nil, fmt.Errorf("infra: create configuration: %v", err)
 	}
+	if sc.Live {
+		if err := w.startWatchers(); err != nil {
+			return nil, fmt.Errorf("infra: start watchers: %v", err)
+		}
+	}
 	return w, nil
 }
 
+// startWatchers starts the REAL watchers of the v3 transaction, configuration and mastership controllers; the ids they
+// emit are collected in the world's work sets (the controller runtime's queues)
+func (w *V3World) startWatchers() error {
+	w.live = true
+	w.pendTx = map[int]bool{}
+	tp := &v3Topo{w: w, watcher: true}
+	groups := map[string][]controller.Watcher{
+		"tx":   txctl3.NewWatchersForVerif(w.rawTx, w.rawCfg),
+		"cfg":  cfgctl3.NewWatchersForVerif(tp, w.rawCfg),
+		"mast": mastctl3.NewWatchersForVerif(tp, w.rawCfg),
+	}
+	for ctl, ws := range groups {
+		for _, wt := range ws {
+			ch := make(chan controller.ID, 1024)
+			ctl := ctl
+			go func() {
+				for id := range ch {
+					w.wmu.Lock()
+					w.wakeups++
+					switch v := id.Value.(type) {
+					case v3api.TransactionID:
+						if v.Index > 0 {
+							w.pendTx[int(v.Index)] = true
+						}
+					case v3api.ConfigurationID:
+						if ctl == "cfg" {
+							w.pendCfg = true
+						} else if ctl == "mast" {
+							w.pendMast = true
+						}
+					}
+					w.wmu.Unlock()
+				}
+			}()
+			if err := wt.Start(ch); err != nil {
+				return err
+			}
+			w.stops = append(w.stops, wt.Stop)
+		}
+	}
+	return nil
+}
+
+// settle waits until the watchers have been silent for n polls of 10 ms
+func (w *V3World) settle(n int) {
+	quiet := 0
+	w.wmu.Lock()
+	last := w.wakeups
+	w.wmu.Unlock()
+	for i := 0; quiet < n && i < 400; i++ {
+		time.Sleep(10 * time.Millisecond)
+		w.wmu.Lock()
+		cur := w.wakeups
+		w.wmu.Unlock()
+		if cur == last {
+			quiet++
+		} else {
+			quiet, last = 0, cur
+		}
+	}
+}
+
+// take removes the step's object from the work sets; false if it was not pending
+func (w *V3World) take(st V3Step) bool {
+	w.wmu.Lock()
+	defer w.wmu.Unlock()
+	switch st.K {
+	case "rtx":
+		if w.pendTx[st.I] {
+			delete(w.pendTx, st.I)
+			return true
+		}
+	case "rcfg":
+		if w.pendCfg {
+			w.pendCfg = false
+			return true
+		}
+	case "rmast":
+		if w.pendMast {
+			w.pendMast = false
+			return true
+		}
+	}
+	return false
+}
+
+// after applies the controller runtime's Result semantics to the work sets
+func (w *V3World) after(st V3Step, res v3Result) {
+	w.wmu.Lock()
+	defer w.wmu.Unlock()
+	if res.Cut {
+		// the process died and is restarted: every watcher replays every record
+		n := w.numTxLocked()
+		for i := 1; i <= n; i++ {
+			w.pendTx[i] = true
+		}
+		w.pendCfg, w.pendMast = true, true
+		return
+	}
+	if res.Err != "" || res.Panic != "" {
+		switch st.K { // a failed request is retried
+		case "rtx":
+			w.pendTx[st.I] = true
+		case "rcfg":
+			w.pendCfg = true
+		case "rmast":
+			w.pendMast = true
+		}
+	}
+	if res.Requeue != 0 {
+		w.pendTx[res.Requeue] = true
+	}
+}
+
+func (w *V3World) numTxLocked() int { return w.numTx() }
+
+func (w *V3World) pendingList() []string {
+	w.wmu.Lock()
+	defer w.wmu.Unlock()
+	out := []string{}
+	if w.pendMast {
+		out = append(out, "mast")
+	}
+	if w.pendCfg {
+		out = append(out, "cfg")
+	}
+	ids := []int{}
+	for i := range w.pendTx {
+		ids = append(ids, i)
+	}
+	sort.Ints(ids)
+	for _, i := range ids {
+		out = append(out, fmt.Sprintf("tx%d", i))
+	}
+	return out
+}
+
+// wdrain serves the REAL work sets until they are empty (and stay empty): what the controllers do without outside prodding
+func (w *V3World) wdrain(pol string) map[string]interface{} {
+	act := map[string]interface{}{"k": "wdrain"}
+	served, overrun := 0, false
+	for {
+		w.settle(3)
+		pl := w.pendingList()
+		if len(pl) == 0 {
+			w.settle(20) // stay empty for 200 ms
+			if pl = w.pendingList(); len(pl) == 0 {
+				break
+			}
+		}
+		// a transaction whose number is beyond the log is dropped (the real reconciler finds nothing)
+		pick := pl[0]
+		if pol == "newest" {
+			pick = pl[len(pl)-1]
+		}
+		st := V3Step{K: "r" + pick}
+		if strings.HasPrefix(pick, "tx") {
+			st = V3Step{K: "rtx"}
+			fmt.Sscanf(pick, "tx%d", &st.I)
+		}
+		w.take(st)
+		res := w.reconcile(st)
+		w.after(st, res)
+		served++
+		if res.Effects > 0 || res.Err != "" {
+			a := reconcileAct(st, res)
+			a["indrain"] = true
+			w.emit(a)
+		}
+		if served >= 600 {
+			overrun = true
+			break
+		}
+	}
+	act["served"] = served
+	act["stable"] = !overrun
+	if overrun {
+		act["overrun"] = true
+	}
+	return act
+}
+
+
 // Close releases everything.
 func (w *V3World) Close() {
+	for _, stop := range w.stops {
+		stop()
+	}
 	for id := range w.conns {
 		w.disconnect(string(id))
 	}
@@ -302,13 +503,19 @@ func (w *V3World) took(err error) {
 }
 
 // topology and connections as the reconcilers see them
-type v3Topo struct{ w *V3World }
+type v3Topo struct {
+	w       *V3World
+	watcher bool // used by watcher goroutines: outside the flight accounting of reconciles
+}
 
 func (t *v3Topo) Create(ctx context.Context, o *topoapi.Object) error { return t.w.topo.create(o) }
 func (t *v3Topo) Update(ctx context.Context, o *topoapi.Object) error {
 	return errors.NewNotSupported("verif: topo update not modelled")
 }
 func (t *v3Topo) Get(ctx context.Context, id topoapi.ID) (*topoapi.Object, error) {
+	if t.watcher {
+		return t.w.topo.get(id)
+	}
 	if err := t.w.fl.read(); err != nil {
 		return nil, err
 	}
@@ -322,6 +529,41 @@ func (t *v3Topo) List(ctx context.Context, f *topoapi.Filters) ([]topoapi.Object
 }
 func (t *v3Topo) Delete(ctx context.Context, o *topoapi.Object) error { return t.w.topo.delete(o.ID) }
 func (t *v3Topo) Watch(ctx context.Context, ch chan<- topoapi.Event, f *topoapi.Filters) error {
+	ft := t.w.topo
+	ft.mu.Lock()
+	id := ft.nextW
+	ft.nextW++
+	tw := &topoWatcher{ch: ch, ctx: ctx, q: make(chan topoapi.Event, 4096)}
+	ids := make([]string, 0, len(ft.objects))
+	for oid := range ft.objects {
+		ids = append(ids, string(oid))
+	}
+	sort.Strings(ids)
+	for _, oid := range ids {
+		tw.q <- topoapi.Event{Type: topoapi.EventType_NONE, Object: *cloneObj(ft.objects[topoapi.ID(oid)])}
+	}
+	ft.watchers[id] = tw
+	ft.mu.Unlock()
+	go func() {
+		defer func() {
+			ft.mu.Lock()
+			delete(ft.watchers, id)
+			ft.mu.Unlock()
+			close(ch)
+		}()
+		for {
+			select {
+			case ev := <-tw.q:
+				select {
+				case ch <- ev:
+				case <-ctx.Done():
+					return
+				}
+			case <-ctx.Done():
+				return
+			}
+		}
+	}()
 	return nil
 }
 
@@ -586,7 +828,18 @@ func (w *V3World) exec(st V3Step, inner bool) map[string]interface{} {
 			act["err"] = err.Error()
 		}
 	case "rtx", "rcfg", "rmast":
+		if w.live && !inner {
+			// the schedule's pick is a hint: the reconcile runs iff the real watchers have woken this object
+			w.settle(3)
+			if !w.take(st) {
+				act = map[string]interface{}{"k": "skip", "of": st.K, "i": st.I}
+				break
+			}
+		}
 		res := w.reconcile(st)
+		if w.live && !inner {
+			w.after(st, res)
+		}
 		act = reconcileAct(st, res)
 	case "connect":
 		w.connSeq++
@@ -620,6 +873,12 @@ func (w *V3World) exec(st V3Step, inner bool) map[string]interface{} {
 		}
 	case "drain":
 		act = w.drain(st.Pol)
+	case "wdrain":
+		if w.live {
+			act = w.wdrain(st.Pol)
+		} else {
+			act = w.drain(st.Pol)
+		}
 	}
 	if inner {
 		return nil
@@ -751,6 +1010,9 @@ func (w *V3World) snapshot(act map[string]interface{}) (map[string]interface{}, 
 		"cord": int(cfg.Committed.Ordinal), "crev": int(cfg.Committed.Revision), "cvalues": v3Vals(cfg.Committed.Values),
 		"aindex": int(cfg.Applied.Index), "atarget": int(cfg.Applied.Target), "aord": int(cfg.Applied.Ordinal),
 		"arev": int(cfg.Applied.Revision), "avalues": v3Vals(cfg.Applied.Values), "ver": int(cfg.Version)}
+	if w.live {
+		line["pending"] = w.pendingList()
+	}
 	line["conns"] = w.connIDs()
 	line["nconn"] = w.connSeq
 	vals, boot := w.dev.Snapshot()
